@@ -323,7 +323,8 @@ def run(ctx):
     ctx.sentinels_changed = changed
     ctx.notes["sentinels"] = cur
     ctx.build(COQ_FILES)
-    from harness import lattice
+    from harness import lattice, latticegen
+    latticegen.regenerate(ctx, "C09")
     lattice.angular_stream(ctx, ctx.budget(500, 5000), "surrogates")
     pairs(ctx, ctx.budget(14, 40))
     sweep(ctx, 0 if ctx.thorough else (8 if changed else 10))
